@@ -50,7 +50,7 @@ def emit_format(f, gen):
     fe = f.get("field_enum") or {"type": "", "enumerators": []}
     L.append("  enumType := %s" % lstr(fe["type"]))
     L.append("  enumerators := [" + ", ".join("(%s, %d)" % (lstr(n), v) for n, v in fe["enumerators"]) + "]")
-    gs, ss, inits, legs, pas, algs, ops, algfacts = [], [], [], [], [], [], [], []
+    gs, ss, inits, legs, pas, algs, ops, algfacts, algwrites = [], [], [], [], [], [], [], [], []
     for fn in f["functions"]:
         k = fn["kind"]
         if k == "getter":
@@ -102,6 +102,7 @@ def emit_format(f, gen):
             algs.append("(%s, %s)" % (lstr(fn["name"]), lstr(fn["body_sha"])))
             algfacts.append("(%s, %d, [%s])" % (lstr(fn["name"]), fn.get("ret_bits") or 0,
                                                 ", ".join(str(x) for x in fn.get("memset_scales", []))))
+            algwrites.append("(%s, [%s])" % (lstr(fn["name"]), ", ".join(lstr(x) for x in fn.get("writes_through", []))))
         else:
             ops.append("(%s, %s)" % (lstr(fn["name"]), lstr(fn.get("why", ""))))
     L.append("  getters := [\n" + ",\n".join(gs) + "]")
@@ -112,6 +113,7 @@ def emit_format(f, gen):
     L.append("  algorithmic := [" + ", ".join(algs) + "]")
     L.append("  opaqueFns := [" + ", ".join(ops) + "]")
     L.append("  algoFacts := [" + ", ".join(algfacts) + "]")
+    L.append("  algoWrites := [" + ", ".join(algwrites) + "]")
     L.append("  statics := [" + ", ".join("(%s, %s, %s)" % (lstr(s["name"]), lstr(s["type"]), lbool(s["const"]))
                                          for s in f["statics"]) + "]")
     hdr = f.get("header") or ""
